@@ -1,0 +1,45 @@
+//go:build verif
+
+// Contracts for the event publisher, read by /verif/govc (C16).
+// This file contains comments only; it is compiled only with -tags verif.
+
+package bus
+
+// The interface bus.Monitor gives each parameter its role by position (RevertedTransaction(ctx, reverted, revert)). The
+// publisher must put each argument into the field of that role, whatever it calls its own parameters: param(i) is the
+// i-th parameter of the method being verified (receiver not counted). The event type matches the topic it is sent on.
+//@ func bus.newEventCommittedTransactions
+//@   requires in ledgerMonitor).CommittedTransactions: len(txs.Transactions) == 1 && txs.Transactions[0] == param(1) && txs.AccountMetadata == param(2) && txs.Ledger == local(l).ledgerName // C16
+//@   ensures ret.Type == "COMMITTED_TRANSACTIONS" && ret.Payload == anyof(txs)
+//@   modifies nothing
+//@ func bus.newEventSavedMetadata
+//@   requires in ledgerMonitor).SavedMetadata: metadata.TargetType == param(1) && metadata.TargetID == param(2) && metadata.Metadata == param(3) && metadata.Ledger == local(l).ledgerName // C16
+//@   ensures ret.Type == "SAVED_METADATA" && ret.Payload == anyof(metadata)
+//@   modifies nothing
+//@ func bus.newEventRevertedTransaction
+//@   requires in ledgerMonitor).RevertedTransaction: tx.RevertedTransaction == deref(param(1)) && tx.RevertTransaction == deref(param(2)) && tx.Ledger == local(l).ledgerName // C16
+//@   ensures ret.Type == "REVERTED_TRANSACTION" && ret.Payload == anyof(tx)
+//@   modifies nothing
+//@ func bus.newEventDeletedMetadata
+//@   requires in ledgerMonitor).DeletedMetadata: tx.TargetType == param(1) && tx.TargetID == param(2) && tx.Key == param(3) && tx.Ledger == local(l).ledgerName // C16
+//@   ensures ret.Type == "DELETED_METADATA" && ret.Payload == anyof(tx)
+//@   modifies nothing
+
+// what is published goes out on the topic named after its type
+//@ func (*bus.ledgerMonitor).publish
+//@   requires topic == ev.Type // C16
+//@   modifies nothing
+//@   trusted watermill's publisher is outside the verifier
+
+//@ func (*bus.ledgerMonitor).CommittedTransactions
+//@   requires l != nil
+//@   property C16
+//@ func (*bus.ledgerMonitor).SavedMetadata
+//@   requires l != nil
+//@   property C16
+//@ func (*bus.ledgerMonitor).RevertedTransaction
+//@   requires l != nil && reverted != nil && revert != nil
+//@   property C16
+//@ func (*bus.ledgerMonitor).DeletedMetadata
+//@   requires l != nil
+//@   property C16
